@@ -59,6 +59,12 @@ func (e *sched) step(st *sState, in ssa.Instruction) {
 			obj := &hArray{elems: make([]sVal, stt.NumFields())}
 			for i := range obj.elems {
 				obj.elems[i] = e.zeroOf(stt.Field(i).Type())
+				if e.proto != nil {
+					// a field that holds a field element / scalar / big integer by value: an object of its own, initially zero
+					if k := allocKind(stt.Field(i).Type()); (k == "elem" || k == "scalar" || k == "big") && !isPointerType(stt.Field(i).Type()) {
+						obj.elems[i] = e.proto.newObj(st, k, pC(0))
+					}
+				}
 			}
 			st.heap[id] = obj
 			st.vals[x] = sPtr{id, -1}
@@ -116,8 +122,19 @@ func (e *sched) step(st *sState, in ssa.Instruction) {
 						return
 					}
 					if p.idx == -1 {
-						if _, isStruct := x.Type().Underlying().(*types.Struct); isStruct {
-							st.vals[x] = sStruct{append([]sVal(nil), arr.elems...)}
+						if stt, isStruct := x.Type().Underlying().(*types.Struct); isStruct {
+							f := append([]sVal(nil), arr.elems...)
+							if e.proto != nil {
+								// value fields that are protocol objects are copied, not shared
+								for i := range f {
+									if po, isObj := f[i].(pObj); isObj && i < stt.NumFields() && allocKind(stt.Field(i).Type()) != "" && !isPointerType(stt.Field(i).Type()) {
+										if h := e.proto.obj(st, po); h != nil {
+											f[i] = e.proto.newObj(st, h.kind, h.t)
+										}
+									}
+								}
+							}
+							st.vals[x] = sStruct{f}
 							return
 						}
 						st.vals[x] = p // array value: keep as reference
@@ -339,6 +356,10 @@ func (e *sched) step(st *sState, in ssa.Instruction) {
 						return
 					}
 				} else {
+					if po, isObj := obj.elems[x.Field].(pObj); isObj && e.proto != nil && allocKind(ft) != "" && !isPointerType(ft) {
+						st.vals[x] = po // the address of a value field that is a protocol object denotes that object
+						return
+					}
 					st.vals[x] = sPtr{pp.id, x.Field}
 					return
 				}
@@ -1944,4 +1965,9 @@ func (e *sched) protoCall(states []*sState, call *ssa.Call) ([]*sState, bool) {
 		out = append(out, extra...)
 	}
 	return out, anyHandled
+}
+
+func isPointerType(t types.Type) bool {
+	_, ok := t.Underlying().(*types.Pointer)
+	return ok
 }
